@@ -4,6 +4,7 @@ import FinamModel.Translated.AvgOverTime__interpolate
 import FinamModel.Translated.SumOverTime__interpolate
 import FinamModel.Translated.TimeIntegrationAdapter__get_data_avg
 import FinamModel.Translated.TimeIntegrationAdapter__get_data_sum
+import FinamModel.Translated.TimeIntegrationAdapter__source_updated
 import FinamModel.Props.TrCommon
 import FinamModel.Props.TrTimeBase
 /-
@@ -257,8 +258,18 @@ def codeGetTI (c : TI.Cfg) (buf : List (Int × Rat)) (prev t : Int) : Except Err
   | .avg => Tr.TimeIntegrationAdapter__get_data_avg buf prev c.step t
   | .sum pt init => Tr.TimeIntegrationAdapter__get_data_sum buf prev c.step pt init t
 
+/-- **`TimeIntegrationAdapter._source_updated`**: the data pulled at the notification is appended with its time; the
+    first notification also sets the start of the first integration interval -/
+theorem tr_TimeIntegrationAdapter__source_updated {α} (buf : List (Int × α)) (prev : Option Int) (t : Int) (v : α) :
+    Tr.TimeIntegrationAdapter__source_updated buf prev t v =
+      .ok ((match prev with | none => some t | some p => some p), buf ++ [(t, v)]) := by
+  cases prev <;> simp [Tr.TimeIntegrationAdapter__source_updated, pure, Except.pure]
+
 def codeStepTI (c : TI.Cfg) (s : CodeTI) : TA.Ev → CodeTI × Option (Except Err Rat)
-  | .push t v => (⟨s.buf ++ [(t, v)], match s.prev with | none => some t | some p => some p⟩, none)
+  | .push t v =>
+    match Tr.TimeIntegrationAdapter__source_updated s.buf s.prev t v with
+    | .ok (prev', buf') => (⟨buf', prev'⟩, none)
+    | .error _ => (s, none)
   | .pull t =>
     match codeGetTI c s.buf (s.prev.getD 0) t with
     | .ok (v, p', buf') => (⟨buf', some p'⟩, some (.ok v))
@@ -281,6 +292,7 @@ theorem code_step_sim_ti (c : TI.Cfg) (cs : CodeTI) (s : TI.IState) (hb : toE cs
       (codeStepTI c cs ev).1.prev = (TI.stepImpl c s ev).1.prev := by
   cases ev with
   | push t v =>
+    simp only [codeStepTI, tr_TimeIntegrationAdapter__source_updated]
     refine ⟨rfl, ?_, ?_⟩
     · show toE (cs.buf ++ [(t, v)]) = s.buf ++ [⟨t, v⟩]
       simp [toE, ← hb]
